@@ -96,6 +96,15 @@ def run(ctx):
                              and found["Q"].equals(Q) and found["-F'"].equals(-F.T) and A.kind == "zeros"
                              and A.rows.same(two, c) and A.cols.same(two, c))
             out["factor"] = A.factor == "dt"
+            if not (out["blocks"] and out["factor"]) and A.factor is None and set(found) == {"F", "Q", "-F'"} and all(isinstance(v_, W) for v_ in found.values()):
+                # the same argument with the step multiplied into the blocks: [[F dt, Q dt], [0, -(F dt)^T]]
+                dts = Scalar("dt")
+                pre = found["F"].equals(dts * F) and found["Q"].equals(dts * Q) and (found["-F'"].equals(-(dts * F).T) or found["-F'"].equals(dts * (-F.T)))
+                if pre and len(A.blocks) == 3 and A.kind == "zeros" and A.rows.same(two, c) and A.cols.same(two, c):
+                    out["blocks"] = out["factor"] = True
+                    out["prescaled"] = True
+            if getattr(A, "read_back", False) and not (out["blocks"] and out["factor"]):
+                raise Concretization("blocks of the exponential's argument are built from one another in a way the W domain does not normalise")
             out["blocks_text"] = [(str(r0.v), str(r1.v), str(c0.v), str(c1.v), v.show() if isinstance(v, W) else repr(v)) for (r0, r1, c0, c1, v) in A.blocks]
         E = st.get("res")
         if E is not None and isinstance(res, tuple) and len(res) == 2 and all(isinstance(r_, W) for r_ in res):
@@ -103,6 +112,10 @@ def run(ctx):
             out["qd"] = res[1].equals(E.E[(0, 1)] @ E.E[(0, 0)].T)
             out["res_text"] = [res[0].show(), res[1].show()]
         else:
+            from props.C07 import USc as _USc
+            if isinstance(res, tuple) and any(isinstance(r_, _USc) for r_ in res):
+                # the result is computed with a numpy function the W domain does not interpret: not a verdict on the code
+                raise Concretization("result computed by an uninterpreted numpy function: %s" % [getattr(r_, "name", None) for r_ in res])
             out["phi"] = out["qd"] = False
             out["res_text"] = [getattr(r_, "show", lambda: repr(r_))() for r_ in (res if isinstance(res, tuple) else (res,))]
         return out
@@ -172,6 +185,20 @@ class ConcatVec:
         if k == 2:
             return ConcatVec(self.parts, True)
         raise Concretization("q ** %r" % (k,))
+
+    def __rmul__(self, other):
+        """G * q: the columns of G scaled by the noise intensities = G diag(q); diag(q) diag(q) = diag(q^2) (the letter Dq)"""
+        if self.squared:
+            raise Concretization("G * q**2")
+        c = wctx()
+        tot = Dim(0)
+        for p_ in self.parts:
+            tot = tot + p_.rows
+        S = c.letter("Sq", tot, tot, symmetric=True)
+        Dq = c.letter("Dq", tot, tot, symmetric=True)
+        c.add_rule(S @ S, Dq)
+        c.log.append(("diag", ConcatVec(self.parts, True)))
+        return other @ S
 
 
 class JNp(KNp):
@@ -449,8 +476,34 @@ def _standin(ctx, py):
     r = _native_joint(py)
     if r["reproduced"]:
         fails.append(dict(kind="joint model", what=r))
-    ctx.standin("C08.rt", "%d seeded cases n<=%d: stable / unstable / nilpotent / zero / slow (|F dt| ~ 1e-4) / integer-dtype F, singular Q, dt in {0,...,10}: agreement with expm and 40-point Gauss-Legendre quadrature of the integral, symmetric PSD, zero step, composition over random partitions into 1..8 sub-steps; joint model against an independent dense construction"
-                % (n_cases, 8 if ctx.tier == "quick" else 24), n_cases + 1, fails, time_s=time.time() - t0)
+    # storage dtype of the arguments: the matrices are VALUES; stored as float32 / float16 / small integers they give what the
+    # same values stored as float64 give (the work matrix is float64), for integer, dyadic and other steps
+    n_dt = 0
+    for dtp in (np.float32, np.float16, np.int8, np.int16, np.int32):
+        for dt in (0.3, 7, 20, 0.5, np.float32(0.1)):
+            n_ = int(rng.randint(1, 5))
+            if np.dtype(dtp).kind == "i":
+                F = rng.randint(-7, 8, (n_, n_)).astype(dtp)
+                F = np.triu(F, 1)                                  # nilpotent: no overflow of the exponential itself
+                Qh = rng.randint(-3, 4, (n_, n_))
+                Q = (Qh @ Qh.T).astype(dtp)
+            else:
+                F = (0.3 * rng.randn(n_, n_)).astype(dtp)
+                Qh = rng.randn(n_, n_)
+                Q = (Qh @ Qh.T).astype(dtp)
+            n_dt += 1
+            try:
+                a = py.kalman.compute_process_matrices(F, Q, dt)
+                b = py.kalman.compute_process_matrices(F.astype(float), Q.astype(float), float(dt))
+                dev = max(float(np.max(np.abs(np.asarray(x, dtype=float) - np.asarray(y, dtype=float))) / (1.0 + float(np.max(np.abs(y))))) for x, y in zip(a, b))
+            except Exception as exc:
+                fails.append(dict(kind="storage dtype", dtype=str(np.dtype(dtp)), dt=repr(dt), raised=repr(exc)[:200]))
+                continue
+            if not dev <= 1e-12:
+                fails.append(dict(kind="storage dtype", dtype=str(np.dtype(dtp)), dt=repr(dt), F=F.tolist(), Q=Q.tolist(),
+                                  relative_deviation_from_float64_storage=dev))
+    ctx.standin("C08.rt", "%d seeded cases n<=%d: stable / unstable / nilpotent / zero / slow (|F dt| ~ 1e-4) / integer-dtype F, singular Q, dt in {0,...,10}: agreement with expm and 40-point Gauss-Legendre quadrature of the integral, symmetric PSD, zero step, composition over random partitions into 1..8 sub-steps; joint model against an independent dense construction; %d storage-dtype cases (float32 / float16 / int8 / int16 / int32 x 5 steps) against float64 storage"
+                % (n_cases, 8 if ctx.tier == "quick" else 24, n_dt), n_cases + 1 + n_dt, fails, time_s=time.time() - t0)
 
 
 def replay(obligation, cex):
